@@ -142,6 +142,19 @@ CLAIMED["C18"] = dict(
     technique="runtime monitoring: render/parse round-trip oracle with structural type equality",
 )
 
+CLAIMED["C20"] = dict(
+    category="exploration",
+    text="For generated programs (complete, truncated, one token deleted) the typed or salvaged AST is obtained the way a "
+         "language server gets it and find / suggest / signature_help / get_metadata are called at every byte offset "
+         "(all_symbols once); oracles: no panic; on cleanly typed programs the type `find` reports at every identifier use "
+         "equals the type stored in that AST node; sampled suggestions, substituted at the cursor, must not be reported "
+         "as undefined by the real checker.",
+    design_ref="DESIGN.md §4 C20",
+    note="Type agreement is judged on cleanly typed ASTs only (recovered nodes overlap in salvaged ones: observed, not "
+         "judged). Three panics repaired (F40).",
+    technique="runtime monitoring: exhaustive-offset query sweep with panic monitor, AST-node type oracle and checker-backed scope oracle",
+)
+
 NOT_YET = "check not built yet in this session (work in progress; see DESIGN.md for the planned monitor)"
 
 def main():
